@@ -2275,7 +2275,7 @@ func ruleWindowPos(c *Ctx, rule string) {
 	env := &linEnv{noInline: true}
 	kAtom := fn.Params[0].Name() + ".k"
 	lhs := linOf(iP, env).add(aForm, 1).add(linConst(-1), 1).add(linAtom(kAtom), 1) // position + k - 1
-	rhs := linOf(iB, env).add(linConst(r), 1)                          // subscript of the letter just read
+	rhs := linOf(iB, env).add(linConst(r), 1)                                       // subscript of the letter just read
 	d := lhs.add(rhs, -1)
 	switch {
 	case d.isConst() && d.k == 0:
